@@ -120,6 +120,7 @@ def term_zoo():
     add("Not", 2, lambda f: ~(f[0] == f[1]))
     add("All", 1, lambda f: T.All(f[0]))
     add("Function", 2, lambda f: T.Function("FN", f[0], f[1]))
+    add("Function.schema", 1, lambda f: T.Function("score", f[0], 3, schema=Q.Schema("util")))  # schema-qualified call
     add("AggregateFunction", 1, lambda f: T.AggregateFunction("AGG", f[0]))
     add("AggregateFunction.filter", 2, lambda f: T.AggregateFunction("AGG", f[0]).filter(f[1] == 1))
     add("AnalyticFunction", 3, lambda f: T.AnalyticFunction("ANF", f[0]).over(f[1]).orderby(f[2], order=Order.desc))
